@@ -54,6 +54,10 @@ CHECKS = {
    text="Enc/Struct.v specifies, for struct types and values given as data, the tree the option documentation prescribes (UseTags / KeyExact / lower-case naming, NestEmbed, OmitNil, OmitEmpty, CreateKey, ,omitempty and ,string tags, '-' tags, unexported fields, flattened and nested embedded structs, nil pointers anywhere, the documented difference for objects left empty by alt.Decompose). Proved for all options, types and values: the object of a struct is the create key followed by per-field contributions that depend on their own field only; hence an omitempty tag never changes another field's member, and its own member is unchanged or dropped as a whole. Tied to the code on every run: struct types are generated with reflect.StructOf (field kinds incl. ten integer kinds, pointers, slices, maps, interfaces holding structs, nested and embedded named structs, nil embedded pointers, all tag forms), three values each, all 32 option combinations with and without CreateKey, by pointer and by value; oj.JSON (tight and indented), oj.Marshal, oj.Write, sen.String (tight and indented), pretty.JSON and alt.Decompose are parsed back and compared with the extracted specification, and oj.Marshal with the Go options with encoding/json. Three genuine divergences are recorded as known findings, each attributed per case by an extracted specification variant or a defused witness.",
    technique="Coq specification of struct encoding with proved locality of omitempty + correspondence of eight encoder entry points on run-time generated struct types against the extracted specification and encoding/json",
    design='6/C15'),
+ 'C16': dict(
+   text="Proved in Coq: decoding the exact-key encoding of any well-typed value of a struct type (nested structs, pointers, slices, maps; Enc/Recompose.v dec against Enc/Struct.v enc) gives the value back with nil and empty containers identified (dec_enc, nested induction over values); a registry whose keys tell types apart gives every type its own field index after ANY history of recompositions (index_independent_of_history), while a key that does not - a shared short name, the empty name of anonymous types - makes the outcome history dependent (refutation with a witness). The registry discipline of alt/recomposer.go is regenerated on every run (which functions look composers up by name, which compare the composer's type) and discharged by computation. Decided on the real code: struct types generated with reflect.StructOf plus named types, seeded values, Decompose (exact / lower-case / tag keys, create key) -> Recompose on a fresh Recomposer and on one with a seeded history of other recompositions (same-named types from another package, named and anonymous types), oj.Marshal -> oj.Unmarshal and sen.String -> sen.Unmarshal through the default recomposer, compared as canonical JSON.",
+   technique="Coq proofs of decode-after-encode and of history independence of a type-keyed registry (+ refutation for name keys) + regenerated registry facts + round-trip correspondence on run-time generated types with seeded registration histories",
+   design='6/C16'),
  'C18': dict(
    text="Proved in Coq for all typed simple trees (ten Go integer kinds, uint64 wrap made explicit) and both OmitNil settings: Simplify after Generify equals Decompose; on JSON-like data with nulls kept Decompose/Dup/Alter is the identity, hence the Generify/Simplify trip is the identity; Generify after Simplify gives the generic tree back; the writers see the same tree in a generic value and in its Simplify; Generify never leaves the int64 range. Deep copy is proved on a model of containers with identity (Alt/Store.v): a copy allocates a fresh identity for every container, denotes the same value, and an in-place mutation of any container of either tree leaves the other unchanged. Tied to the code on every run: alt.Generify/GenAlter/Decompose/Dup/Alter, Node.Simplify/Alter against the extracted functions on typed trees x OmitNil; writer text of gen tree vs Simplify for oj/sen/pretty; gen.Parser vs Generify(oj.Parser); the storage identities of every container of original and copy are observed (reflect pointers) and three in-place mutations are applied to every container of the copy and of the original for five copying operations.",
    technique="Coq proofs of the conversion laws and of copy independence on a store model + correspondence of the kind switches and observed container identities / mutate-after-copy experiments",
